@@ -169,7 +169,36 @@ def generate(repo):
         out.append('Definition %s_copy_events : list ev := %s.\n' % (tag, coq_list(cp_ev)))
         out.append('Definition %s_rename_order : list string := %s.\n' % (tag, coq_list(coq_string(x) for x in rn_ev)))
         out.append('Definition %s_uploader_holds_guard : bool := %s.\n' % (tag, 'true' if holds_guard else 'false'))
-        out.append('Definition %s_copy_holds_guard : bool := %s.\n\n' % (tag, 'true' if guard_bound else 'false'))
+        out.append('Definition %s_copy_holds_guard : bool := %s.\n' % (tag, 'true' if guard_bound else 'false'))
+        # conditional reads: where the read preconditions are evaluated relative to the stale-pointer retry loop
+        impl = block_after(src, r'impl\s*<\s*T\s*:\s*ObjectStore\s*>\s*ObjectStore\s+for\s+%s\s*<\s*T\s*>' % typ, G, tag + ' impl ObjectStore')
+        go = fn_body(impl, 'get_opts', G)
+        lm = re.search(r'\bloop\s*\{', go)
+        if not lm:
+            lost(G, tag + ' get_opts: retry loop')
+        lstart = lm.end() if lm else 0
+        lbody = block_after(go, r'\bloop\s*(?=\{)', G, tag + ' get_opts: retry loop body') if lm else ''
+        lend = lstart + len(lbody)
+        occ = []
+        for name, rx in (('RESOLVE', r'\.\s*get_meta\s*\(\s*location\s*\)'), ('CHECK', r'\bcheck_get_preconditions\s*\('),
+                         ('FETCH', r'\.\s*store\s*\.\s*get_opts\s*\('), ('REFRESH', r'\.\s*refresh_meta\s*\(\s*location\s*\)')):
+            ps = all_positions(go, rx)
+            if not ps:
+                lost(G, '%s get_opts: %s' % (tag, name))
+            occ.extend((q, name) for q in ps)
+        if lm:
+            occ.append((lm.start(), 'LOOP'))
+        occ.sort()
+        order = [n for _, n in occ]
+        inside = all(lstart <= q < lend for q, n in occ if n != 'LOOP')
+        # the document an iteration serves is the one it resolved and checked: the refreshed document is not
+        # carried into the next iteration, the options are re-derived from the caller's per iteration
+        rebinds = bool(re.search(r'\bmeta\s*=\s*self\s*\.\s*inner\s*\.\s*refresh_meta', go))
+        fresh_opts = bool(re.search(r'let\s+mut\s+options\s*=\s*options\s*\.\s*clone\s*\(\s*\)', lbody))
+        check_on_iter_doc = bool(re.search(r'check_get_preconditions\s*\(\s*location\s*,\s*&mut\s+options\s*,\s*meta\s*\.\s*e_tag', lbody)) and \
+            bool(re.search(r'let\s+meta\s*=\s*self\s*\.\s*inner\s*\.\s*get_meta\s*\(\s*location\s*\)', lbody))
+        out.append('Definition %s_get_opts_order : list string := %s.\n' % (tag, coq_list(coq_string(x) for x in order)))
+        out.append('Definition %s_get_check_in_retry_loop : bool := %s.\n\n' % (tag, 'true' if (inside and not rebinds and fresh_opts and check_on_iter_doc) else 'false'))
 
     out.append('Definition delete_events : list ev := %s.\n' % coq_list(del_ev))
     out.append('Definition update_meta_events : list string := %s.\n' % coq_list(coq_string(x) for x in umw_ev))
